@@ -502,8 +502,8 @@ def corpus_C08(tier):
         nref = min(ref_nf(b), 60)
         step = 1 if tier == "thorough" else 2
         for k in range(2, nref + 1, step):
-            for kind in (("nan",) if tier == "quick" else ("nan", "pinf", "huge")):
-                insts.append(dict(b, id=400000 + 1000 * bi + 10 * k + len(kind), maxfun=k, fault=dict(k=k, kind=kind)))
+            for ki, kind in enumerate(("nan",) if tier == "quick" else ("nan", "pinf", "huge")):
+                insts.append(dict(b, id=400000 + 1000 * bi + 10 * k + ki, maxfun=k, fault=dict(k=k, kind=kind)))
     # opted-in raise-on-NaN
     for j in range(6):
         b = dict(bases[0], seed=int(rng.integers(0, 2 ** 31 - 1)), maxfun=40, id=800000 + j,
